@@ -704,13 +704,15 @@ def main(tier, seed):
     probe = HarnessGen(Catalogue())
     subset = None if thorough else quick_subset(probe.class_list(), seed)
     # one compile wave on 16 cores: every TU pays ~18 s (sanitizers) for the library's table initialisers
-    nsan = max(1, (common.NCPU * 11) // 16)
+    nsan = max(1, (common.NCPU * 9) // 16)
+    nplain = max(1, (common.NCPU * 3) // 16)
+    ntsan = max(1, common.NCPU - nsan - nplain)
     hs = Harness(os.path.join(root, "san"), SAN_FLAGS, subset=subset, label="san", ntus=nsan)
     psub = subset if thorough else {"double": subset["double"]}
-    hp = Harness(os.path.join(root, "plain"), PLAIN_FLAGS, subset=psub, label="plain", ntus=max(1, common.NCPU - nsan))
+    hp = Harness(os.path.join(root, "plain"), PLAIN_FLAGS, subset=psub, label="plain", ntus=nplain)
     # concurrent build (ThreadSanitizer): classes x double + all unit/enum/base/model ops in quick, everything in thorough
     tsub = subset if thorough else {"double": subset["double"]}
-    ht = Harness(os.path.join(root, "tsan"), TSAN_FLAGS, subset=tsub, label="tsan", ntus=max(2, common.NCPU // 3))
+    ht = Harness(os.path.join(root, "tsan"), TSAN_FLAGS, subset=tsub, label="tsan", ntus=ntsan)
     # the builds share the cores; the sanitizer build is the long pole
     errs = pmap(lambda h: h.build(), [hs, hp, ht], 3)
     for e in errs:
@@ -808,9 +810,9 @@ def main(tier, seed):
     for label_, env_ in (("env:LANG=missing", {"LANG": "xx_XX.UTF-8", "LC_CTYPE": "yy_YY.ISO-8859-15"}), ("env:LC_ALL=C.UTF-8", {"LC_ALL": "C.UTF-8"})):
         execute(label_, hs.exe, chunked(envb, 270000, size=512), env=env_)
     # 3c. ambient floating-point state: the fault-free batch under each non-default rounding mode
-    for mode in (1, 2, 3):
+    for mode in (1, 2, 3, 4):
         runs_ = [(280000 + mode * 3000 + rid, [{"mode": mode}] + ops_) for rid, ops_ in chunked(envb, 0, size=512)]
-        execute("rounding-mode-%d" % mode, hs.exe, runs_)
+        execute("rounding-mode-%d" % mode if mode < 4 else "global-locale-numpunct", hs.exe, runs_)
     # 4a. endurance: the same call tens of thousands of times in one process
     endu = gen_endurance(hs, rng, thorough)
     execute("endurance", hs.exe, [(500000 + i, ops_) for i, ops_ in enumerate(endu)])
